@@ -9,48 +9,90 @@
 #include "constants.h"
 
 int g_remaining, g_consumed, g_calls, g_good, g_eof, g_fail;
-char* gp_save; char* gp_host; int* gp_lineno;
+char* gp_host; int* gp_lineno;
 const char** gp_f1; const char** gp_f2; const char** gp_f3; const char** gp_f4; const char** gp_f5; _Bool* gp_isint;
 int g_lineno0, g_total;
 int g_i;                                   /* ghost field index: "for every field i" */
 
-/* first position k >= from inside m_buf with P_kind(m_buf[k]); kind 0: not a blank, 1: blank or NUL, 2: NUL.
- * Used by the strlen / strtok models of unit.cpp; see the comment there. */
+/* ---- strlen / strtok models on m_buf (see the comment in unit.cpp) -------------------------------------------
+ * FIRST_POS(kind): g_sc_k := first position >= g_sc_from inside m_buf with P_kind(m_buf[.]);
+ * kind 0: not a blank, 1: blank or NUL, 2: NUL. */
 #define P_KIND(kind, c) ((kind) == 0 ? ((c) != ' ') : ((kind) == 1 ? ((c) == ' ' || (c) == '\0') : ((c) == '\0')))
-char* gp_buf;
-int first_pos(int from, int kind)
+char* gp_buf; char* gp_save;
+int g_sc_from, g_sc_k, g_sc_e;
+#define FIRST_POS(kind) \
+   __CPROVER_assert(0 <= g_sc_from && g_sc_from < MAX_LINE_LEN, "string argument points into m_buf"); \
+   __CPROVER_assert(__CPROVER_exists { int j; (0 <= j && j < MAX_LINE_LEN) && (j >= g_sc_from && gp_buf[j] == '\0') }, \
+                    "string argument is NUL-terminated inside m_buf"); \
+   g_sc_k = nondet_int(); \
+   __CPROVER_assume(g_sc_from <= g_sc_k && g_sc_k < MAX_LINE_LEN); \
+   __CPROVER_assume(P_KIND(kind, gp_buf[g_sc_k])); \
+   __CPROVER_assume(__CPROVER_forall { int j; (0 <= j && j < MAX_LINE_LEN) ==> ((g_sc_from <= j && j < g_sc_k) ==> !P_KIND(kind, gp_buf[j])) });
+
+int verif_first_nul(int from)
 {
-   __CPROVER_assert(0 <= from && from < MAX_LINE_LEN, "string argument points into m_buf");
-   __CPROVER_assert(__CPROVER_exists { int j; (0 <= j && j < MAX_LINE_LEN) && (j >= from && gp_buf[j] == '\0') },
-                    "string argument is NUL-terminated inside m_buf");
-   int k = nondet_int();
-   __CPROVER_assume(from <= k && k < MAX_LINE_LEN);
-   __CPROVER_assume(P_KIND(kind, gp_buf[k]));
-   __CPROVER_assume(__CPROVER_forall { int j; (0 <= j && j < MAX_LINE_LEN) ==> ((from <= j && j < k) ==> !P_KIND(kind, gp_buf[j])) });
-   return k;
+   g_sc_from = from;
+   FIRST_POS(2)
+   return g_sc_k;
+}
+size_t verif_strlen(const char* s)
+{
+   __CPROVER_assert(__CPROVER_same_object(s, gp_buf), "strlen model: argument points into m_buf");
+   g_sc_from = (int)(s - gp_buf);
+   FIRST_POS(2)
+   return (size_t)(g_sc_k - g_sc_from);
+}
+/* strtok(s, " ") as in ISO C 7.24.5.8 for the one-character delimiter set the slice uses */
+char* verif_strtok(char* s, const char* delim)
+{
+   __CPROVER_assert(delim[0] == ' ' && delim[1] == '\0', "strtok model: delimiter set is \" \"");
+   if(s == NULL)
+      s = gp_save;
+   if(s == NULL)
+      return NULL;
+   __CPROVER_assert(__CPROVER_same_object(s, gp_buf), "strtok model: argument points into m_buf");
+   g_sc_from = (int)(s - gp_buf);
+   FIRST_POS(0)                                   /* skip leading delimiters */
+   if(gp_buf[g_sc_k] == '\0')
+   {
+      gp_save = NULL;
+      return NULL;
+   }
+   g_sc_from = g_sc_k;
+   g_sc_e = g_sc_k;                                /* start of the token */
+   FIRST_POS(1)                                   /* end of the token */
+   if(gp_buf[g_sc_k] == '\0')
+      gp_save = NULL;
+   else
+   {
+      gp_buf[g_sc_k] = '\0';
+      gp_save = gp_buf + g_sc_k + 1;
+   }
+   return gp_buf + g_sc_e;
 }
 
 #define BIG (1 << 29)
 #define N_SECTIONS 9                       /* NAME .. ENDATA; the enum text is conformance-checked */
 
-int w_readline(int section, int lineno, int is_integer, int is_new_format, int* off, int* end, char* c0, int* lineno_out)
+int w_readline(int section, int lineno, int is_integer, int is_new_format, int* off, int* end_i, int* end_prev, char* c0, int* lineno_out)
 __CPROVER_requires(0 <= section && section <= N_SECTIONS - 1)
 __CPROVER_requires(0 <= lineno && lineno <= BIG && g_lineno0 == lineno)
 __CPROVER_requires(0 <= g_remaining && g_remaining <= BIG && g_total == g_remaining && g_consumed == 0 && g_calls == 0)
-__CPROVER_requires(__CPROVER_is_fresh(off, 6 * sizeof(int)) && __CPROVER_is_fresh(end, 6 * sizeof(int)) && __CPROVER_is_fresh(c0, 6))
-__CPROVER_requires(__CPROVER_is_fresh(lineno_out, sizeof(int)))
+__CPROVER_requires(__CPROVER_is_fresh(off, 6 * sizeof(int)) && __CPROVER_is_fresh(end_i, sizeof(int)) && __CPROVER_is_fresh(end_prev, sizeof(int)))
+__CPROVER_requires(__CPROVER_is_fresh(c0, 1) && __CPROVER_is_fresh(lineno_out, sizeof(int)))
 __CPROVER_requires(0 <= g_i && g_i < 6)
 __CPROVER_assigns(g_remaining, g_consumed, g_calls, g_good, g_eof, g_fail, gp_save, gp_host, gp_lineno, gp_buf, gp_f1, gp_f2, gp_f3, gp_f4, gp_f5, gp_isint,
-                  __CPROVER_object_whole(off), __CPROVER_object_whole(end), __CPROVER_object_whole(c0), *lineno_out)
-/* every field: NULL, or inside the buffer with a terminator behind it inside the buffer (the terminator's existence
- * is the assertion of first_pos(), its position is end[i]) */
-__CPROVER_ensures(__CPROVER_return_value ==> (off[g_i] == -1 || (0 <= off[g_i] && off[g_i] < end[g_i] && end[g_i] <= MAX_LINE_LEN - 1)))
-/* fields are handed out left to right: a later field is never set without the earlier one (f0 and f2.. are alternatives) */
-__CPROVER_ensures((__CPROVER_return_value && g_i >= 2 && off[g_i] >= 0) ==> (off[g_i - 1] >= 0 && end[g_i - 1] < off[g_i]))
+                  g_sc_from, g_sc_k, g_sc_e, __CPROVER_object_whole(off), *end_i, *end_prev, *c0, *lineno_out)
+/* every field g_i: NULL, or inside the buffer with a terminator behind it inside the buffer (the terminator's
+ * existence is the assertion inside verif_first_nul(), its position is *end_i) */
+__CPROVER_ensures(__CPROVER_return_value ==> (off[g_i] == -1 || (0 <= off[g_i] && off[g_i] < *end_i && *end_i <= MAX_LINE_LEN - 1)))
+/* fields are handed out left to right: a later field is never set without the earlier one (f0 and f2.. are
+ * alternatives), and a field starts behind the terminator of its predecessor */
+__CPROVER_ensures((__CPROVER_return_value && g_i >= 2 && off[g_i] >= 0) ==> off[g_i - 1] >= 0)
+__CPROVER_ensures((__CPROVER_return_value && g_i >= 1 && off[g_i] >= 0 && off[g_i - 1] >= 0) ==> *end_prev < off[g_i])
 __CPROVER_ensures((__CPROVER_return_value && off[0] >= 0) ==> (off[0] == 0 && off[2] == -1 && off[3] == -1 && off[4] == -1 && off[5] == -1))
-__CPROVER_ensures((__CPROVER_return_value && off[0] >= 0 && off[1] >= 0) ==> end[0] < off[1])
 /* a field is never empty and never starts with a blank */
-__CPROVER_ensures((__CPROVER_return_value && off[g_i] >= 0) ==> (c0[g_i] != '\0' && c0[g_i] != ' '))
+__CPROVER_ensures((__CPROVER_return_value && off[g_i] >= 0) ==> (*c0 != '\0' && *c0 != ' '))
 /* line counter == number of getline() calls; false only after a stream failure */
 __CPROVER_ensures(*lineno_out == g_lineno0 + g_calls && g_consumed + g_remaining == g_total && g_calls >= 1)
 __CPROVER_ensures(!__CPROVER_return_value ==> (!g_good && !g_eof))
@@ -58,9 +100,9 @@ __CPROVER_ensures(!__CPROVER_return_value ==> (!g_good && !g_eof))
 
 void h_readline(void)
 {
-   int section, lineno, is_integer, is_new_format; int* off; int* end; char* c0; int* lineno_out;
+   int section, lineno, is_integer, is_new_format; int* off; int* end_i; int* end_prev; char* c0; int* lineno_out;
    g_remaining = nondet_int(); g_consumed = nondet_int(); g_calls = nondet_int(); g_good = nondet_int(); g_eof = nondet_int(); g_fail = nondet_int();
    g_lineno0 = nondet_int(); g_total = nondet_int(); g_i = nondet_int();
-   w_readline(section, lineno, is_integer, is_new_format, off, end, c0, lineno_out);
+   w_readline(section, lineno, is_integer, is_new_format, off, end_i, end_prev, c0, lineno_out);
    CANARY();
 }
